@@ -9,7 +9,7 @@ spec implies (reference writer + reference reader of vlib.refmsg).
 
 import io
 
-from vlib import irbuild, pbt, refmsg, snapshot, spec as specmod, spectags
+from vlib import auxref, irbuild, pbt, refmsg, snapshot, spec as specmod, spectags
 
 ID = "C01"
 LEVEL = "exploration"
@@ -106,6 +106,27 @@ def run_case(case):
     d = snapshot.diff(snap_a, snap_b)
     if d:
         res.fail("C01:roundtrip-differs", d)
+    # decoded AuxData values of the loaded IR: leaves naming attached nodes are
+    # those node objects, everything else equals the stored value
+    node = {}
+    for kind, nspec, u in r.nodes:
+        n = ir2.get_by_uuid(u)
+        if n is not None:
+            node[u] = n
+    for holder_spec, holder in [(spec["ir"], ir2)] + [
+        (mi["spec"], node.get(r.uuid(mi["spec"]))) for mi in r.mods
+    ]:
+        if holder is None:
+            continue
+        for a in holder_spec["aux"]:
+            tree, jv = r.aux_value(a)
+            ad = holder.aux_data.get(a["key"])
+            if ad is None:
+                continue  # reported by the snapshot comparison
+            want = auxref.expected_python(tree, jv, g, lambda u: node.get(u))
+            msg = auxref.same(tree, want, ad.data, g)
+            if msg:
+                res.fail("C01:auxdata-decoded-value-differs", "%r %s: %s" % (a["key"], ad.type_name, msg))
     m1, m2 = parse(data), parse(data2)
     d = snapshot.diff(refmsg.canon_msg(m1), refmsg.canon_msg(m2))
     if d:
